@@ -104,21 +104,17 @@ Proof. exists k8_edges, [true], k8_nind, k8_muts, 100, [0; 1; 2]%nat, [1; 0; 2]%
   destruct C24_k8_witness as [H1 [H2 H3]]. split; [exact H1|]. split; [exact H2|].
   rewrite H3. cbn. intro E. discriminate E. Qed.
 
-(** second finding about the blocks: [individuals_block] is allocated with [num_edges] entries
-    instead of [num_individuals]; a valid table with more individuals than edges makes the
-    kernel index out of bounds (IndexError in Python, an unchecked access under numba) *)
-Lemma C24_index_witness :
+(** repaired defect S1 (fix f3f9c6a): [individuals_block] used to be allocated with [num_edges]
+    entries instead of [num_individuals]; on a valid table with more individuals than edges
+    (unphased individual 2, two edges) the kernel indexed out of bounds.  Now an ordinary case:
+    one block spanning the whole sequence with the one singleton. *)
+Lemma C24_more_individuals_than_edges_example :
   valid_tablesb 10 [mkEdge 0 10 6 4; mkEdge 0 10 6 5] [0; 1]%nat [0; 1]%nat = true /\
   block_singletons_list [mkEdge 0 10 6 4; mkEdge 0 10 6 5] [false; false; true] [0; 0; 1; 1; 2; 2; -1]
-                        [(3, 4%nat)] 10 [0; 1]%nat [0; 1]%nat = inl 2.
+                        [(3, 4%nat)] 10 [0; 1]%nat [0; 1]%nat = inr ([(1, Some 10)], [(0, 1)], [0]) /\
+  ref_blocks [mkEdge 0 10 6 4; mkEdge 0 10 6 5] (of_list (-1) [0; 0; 1; 1; 2; 2; -1]) [(3, 4%nat)] 10 2
+    = [(10, 1, [0; 1]%nat)].
 Proof. vm_compute. repeat split. Qed.
-
-Lemma C24_index_refuted :
-  exists es unphased nind muts L insq remq,
-    valid_tablesb L es insq remq = true /\
-    block_singletons_list es unphased nind muts L insq remq = inl 2.
-Proof. exact (ex_intro _ _ (ex_intro _ _ (ex_intro _ _ (ex_intro _ _ (ex_intro _ _ (ex_intro _ _ (ex_intro _ _
-              C24_index_witness))))))). Qed.
 
 (** non-vacuity of the count theorems: a two-tree example with a mutation above the root and
     one on an isolated stretch *)
